@@ -230,6 +230,28 @@ func runC05(c *Ctx) {
 			}
 		}))
 	}
+	// a peer that goes away in the middle: the listening stream of a raw session breaks while
+	// senders are writing to it (their writes fail); nothing meant for it may surface elsewhere
+	if t.Bool(35) {
+		var victims []*c05Session
+		for _, se := range sess {
+			if se.raw != nil && se != forger {
+				victims = append(victims, se)
+			}
+		}
+		if len(victims) > 0 {
+			v := victims[t.Draw(len(victims))]
+			wait := t.Draw(120)
+			c.SetPlan("stream_breaks", v.name)
+			tasks = append(tasks, s.Go("breaker", func() {
+				for i := 0; i < wait; i++ {
+					s.Yield("breaker#wait")
+				}
+				v.raw.Close()
+				s.Probe("c05.stream_broken")
+			}))
+		}
+	}
 	for _, a := range s.WaitTasks(30*time.Minute, tasks...) {
 		s.Violate("C05|stuck", "%s did not finish", a.Name)
 	}
